@@ -75,6 +75,7 @@ let parse_cmd (c : string) : SyncSys.cmd =
   | 'A' -> SyncSys.CAnnounce (n_of_int a, nat_of_int b, kind = "i")
   | 'T' -> SyncSys.CTick (a = 1)
   | 'G' -> SyncSys.CGetHeaders (n_of_int a)
+  | 'K' -> SyncSys.CConnectDrop (n_of_int a, nat_of_int b)
   | 'R' -> SyncSys.CRun (nat_of_int a)
   | _ -> failwith ("unknown command " ^ c)
 
@@ -115,6 +116,7 @@ let devent_label = function
   | SyncDefault.EInv (p, l) -> inv_label p l
   | SyncDefault.EDone p -> "Q" ^ dec_of_n p
   | SyncDefault.ETick b -> Printf.sprintf "T%d" (b2i b)
+  | SyncDefault.ENewGone (p, _, _) -> "N" ^ dec_of_n p
 
 let estate_string (st : SyncExp.estate) =
   let (h, i) = match st.SyncExp.e_cur with Some (i, (h, _)) -> (dec_of_z h, string_of_int (int_of_nat i)) | None -> ("-1", "-1") in
@@ -168,7 +170,7 @@ let run_model (sc : scenario) : string =
           Stdlib.String.concat "," (Stdlib.List.rev !parts)
         | SyncSys.CConnect p | SyncSys.CDeliver p | SyncSys.CClose p | SyncSys.CStall p | SyncSys.CGetHeaders p -> on_node (int_of_n p) c
         | SyncSys.CAnnounce (p, _, _) -> on_node (int_of_n p) c
-        | SyncSys.CDone _ | SyncSys.CTick _ -> "") cmds in
+        | SyncSys.CDone _ | SyncSys.CTick _ | SyncSys.CConnectDrop _ -> "") cmds in
     Stdlib.String.concat ";" ("init~-" :: steps) ^ "|" ^ final_string sc !store
   end else begin
     let cfg = { SyncDefault.c_cps = coq_cps sc; c_disable = sc.dis; c_forb = sc.hist.forbidden; c_now = rig_now } in
